@@ -11,31 +11,45 @@ Proof. exact (fun l => conj (sort_perm l) (sort_sorted l)). Qed.
 Print Assumptions C12_sort.
 
 (* ------------------------------------------------------------------ enumeration *)
-(* Without dates, the pairs reaching keepPair in _calculateGeneralSolution1 are exactly the pairs i<j of the sorted
-   sample list whose two ends pass the selection test: the signed 1-D "break" never fires (it only costs time). *)
-Theorem C12_enumeration : forall cf d l,
-  c_dateLoop cf = false -> 0 < d_dpas d -> 0 <= d_tol d ->
-  reached1 cf d l = filter (unskipped cf) (all_pairs (sort_x1 l)).
-Proof. exact reached1_all_pairs. Qed.
+(* [loop_pairs dl [] srt] lists every pair the loops of _calculateGeneralSolution1 are meant to visit: (a, b) for b after a
+   in the sorted list, and in date mode also (a, b) for b before a.  The loops skip some of them with the 1-D tests on the
+   first coordinate (break for partners after, continue for partners before); what they skip never reaches the evaluator: *)
+Theorem C12_enumeration : forall cf d n l,
+  0 < d_dpas d -> 0 <= d_tol d -> Forall (same_dim n) l ->
+  filter (evaluated cf d) (reached1 cf d l) =
+  filter (evaluated cf d) (filter (unskipped cf) (loop_pairs (c_dateLoop cf) [] (sort_x1 l))).
+Proof. exact reached1_evaluated. Qed.
 Print Assumptions C12_enumeration.
 
-(* With dates (inner loop restarted at 0) only soundness holds: what is evaluated is a pair of unskipped samples
-   (possibly the pair of a sample with itself) ... *)
-Theorem C12_enumeration_dates_sound : forall cf md all cur p,
-  (forall x, In x cur -> In x all) -> In p (outer1 cf md all cur) ->
-  In (fst p) all /\ In (snd p) all /\ skip cf (fst p) = false /\ skip cf (snd p) = false.
-Proof. exact outer1_sound. Qed.
-Print Assumptions C12_enumeration_dates_sound.
+(* the same for what the evaluators add (any list of means) *)
+Theorem C12_enumeration_updates : forall cf d means n l,
+  0 < d_dpas d -> 0 <= d_tol d -> Forall (same_dim n) l ->
+  flat_map (fun p => pair_updates cf d means (fst p) (snd p)) (reached1 cf d l) =
+  flat_map (fun p => pair_updates cf d means (fst p) (snd p))
+           (filter (unskipped cf) (loop_pairs (c_dateLoop cf) [] (sort_x1 l))).
+Proof. exact reached1_updates. Qed.
+Print Assumptions C12_enumeration_updates.
 
-(* ... the 1-D test is right about the pair it is applied to ... *)
+(* without dates these are the unordered pairs i<j; with dates, as a multiset, every unordered pair in both orders *)
+Theorem C12_enumeration_pairs : forall l,
+  loop_pairs false [] l = all_pairs l /\ Permutation (loop_pairs true [] l) (ordered_pairs l).
+Proof. exact (fun l => conj (loop_pairs_nodate [] l) (loop_pairs_ordered l)). Qed.
+Print Assumptions C12_enumeration_pairs.
+
+Theorem C12_enumeration_sound : forall cf md pre cur p,
+  In p (outer1 cf md pre cur) ->
+  In (fst p) cur /\ In (snd p) (pre ++ cur) /\ skip cf (fst p) = false /\ skip cf (snd p) = false.
+Proof. exact outer1_sound. Qed.
+Print Assumptions C12_enumeration_sound.
+
+(* the 1-D test is right about every pair it discards *)
 Theorem C12_break_pair_has_no_lag : forall d, 0 < d_dpas d -> 0 <= d_tol d ->
   forall d2 dx, 0 <= d2 -> dx * dx <= d2 -> maxdist d < dx -> lag_rank d d2 = None.
 Proof. exact beyond_maxdist_no_lag. Qed.
 Print Assumptions C12_break_pair_has_no_lag.
 
-(* ... but completeness fails: samples at 0, 1, 5, 6 on a line, 3 lags of 1 (tolerance 1/2), date mode on without any
-   date constraint: the pair {5,6} falls in lag 1, and neither (5,6) nor (6,5) is ever evaluated (for first point 5 the
-   loop meets the sample at 0 first, 5 - 0 > 3.5, and breaks; 6 is last in the order and is never a first point). *)
+(* samples at 0, 1, 5, 6 on a line, 3 lags of 1 (tolerance 1/2): the 1-D tests discard (0,5), (0,6), (1,5), (1,6) and in date
+   mode their reverses; {0,1} and {5,6} are evaluated, in date mode in both orders (former defect generalSolution:dates-break) *)
 Definition wit_s (x z : Q) : sample := {| s_x := [x]; s_sel := true; s_w := None; s_date := Some 0; s_z := [Some z] |}.
 Definition wit_dir : dirp :=
   {| d_npas := 3; d_dpas := 1; d_tol := 1 # 2; d_psmin := 0; d_codir := [1]; d_bench := None; d_cyl := None;
@@ -43,17 +57,15 @@ Definition wit_dir : dirp :=
 Definition wit_cf (dl : bool) : cfg :=
   {| c_calc := Vg; c_hasSel := false; c_hasW := false; c_dateLoop := dl; c_dateChk := false; c_nvar := 1 |}.
 Definition wit_l : list sample := [wit_s 0 1; wit_s 1 3; wit_s 5 2; wit_s 6 5].
-Example C12_enumeration_dates_refuted :
-  let a := wit_s 5 2 in let b := wit_s 6 5 in
-  In (a, b) (all_pairs wit_l) /\
-  pair_updates (wit_cf true) wit_dir [0] a b <> [] /\
-  existsb (fun p => (qeqb (x1 (fst p)) 5 && qeqb (x1 (snd p)) 6) || (qeqb (x1 (fst p)) 6 && qeqb (x1 (snd p)) 5))
-          (reached1 (wit_cf true) wit_dir wit_l) = false /\
-  (* the same data without the date mode: the pair is evaluated *)
-  existsb (fun p => qeqb (x1 (fst p)) 5 && qeqb (x1 (snd p)) 6) (reached1 (wit_cf false) wit_dir wit_l) = true.
-Proof.
-  cbv zeta. split; [cbn; auto 10|]. split; [vm_compute; discriminate|]. split; vm_compute; reflexivity.
-Qed.
+Example C12_enumeration_nonvacuous :
+  map (fun p => (x1 (fst p), x1 (snd p))) (filter (evaluated (wit_cf true) wit_dir) (reached1 (wit_cf true) wit_dir wit_l))
+    = [(0, 1); (1, 0); (5, 6); (6, 5)] /\
+  map (fun p => (x1 (fst p), x1 (snd p))) (filter (evaluated (wit_cf false) wit_dir) (reached1 (wit_cf false) wit_dir wit_l))
+    = [(0, 1); (5, 6)] /\
+  length (reached1 (wit_cf true) wit_dir wit_l) = 4%nat /\ length (loop_pairs true [] (sort_x1 wit_l)) = 12%nat /\
+  map (fun c => (a_sw c, a_glo c)) (accumulate1 (wit_cf true) wit_dir wit_l) = [(0, 0); (4, 13); (0, 0)] /\
+  map (fun c => (a_sw c, a_glo c)) (accumulate1 (wit_cf false) wit_dir wit_l) = [(0, 0); (2, 13 # 2); (0, 0)].
+Proof. vm_compute. repeat split; reflexivity. Qed.
 
 (* ------------------------------------------------------------------ lag rank *)
 Theorem C12_lagrank : forall d, 0 < d_dpas d ->
@@ -101,33 +113,58 @@ Theorem C12_accumulate : forall n us k, (k < n)%nat ->
 Proof. exact apply_upds_sums. Qed.
 Print Assumptions C12_accumulate.
 
-(* every estimator: each raw accumulator = sum, over ALL pairs i<j of usable samples (sorted order), of what _evaluate adds
-   for that pair (nothing when the pair is rejected or falls in no lag) *)
-Theorem C12_estimators_generic : forall cf d l k,
-  c_dateLoop cf = false -> 0 < d_dpas d -> 0 <= d_tol d ->
+(* every estimator, with or without dates: each raw accumulator = sum, over ALL the pairs of usable samples the loop is meant to
+   visit, of what _evaluate adds for that pair (nothing when the pair is rejected or falls in no lag) *)
+Theorem C12_estimators_generic : forall cf d n l k,
+  0 < d_dpas d -> 0 <= d_tol d -> Forall (same_dim n) l ->
   (k < dir_size (is_asym (c_calc cf)) (d_npas d) (c_nvar cf))%nat ->
   cell_eq (nth k (accumulate1 cf d l) cell0)
           (spec_cell (flat_map (fun p => pair_updates cf d (stat_means cf l) (fst p) (snd p))
-                               (all_pairs (filter (usable cf) (sort_x1 l)))) k).
+                               (filter (unskipped cf) (loop_pairs (c_dateLoop cf) [] (sort_x1 l)))) k).
 Proof. exact accumulate1_generic. Qed.
 Print Assumptions C12_estimators_generic.
 
 (* variogram: raw accumulators = the explicit pairwise sums over the data in their ORIGINAL order (closed-form lag class,
    declarative acceptance, both variables defined at both ends) *)
 Theorem C12_estimators : forall cf d,
-  c_calc cf = Vg -> c_dateLoop cf = false -> c_dateChk cf = false ->
+  c_calc cf = Vg -> c_dateChk cf = false ->
   0 < d_dpas d -> 0 <= d_tol d -> 0 <= d_psmin d -> 0 < Qred (dot (d_codir d) (d_codir d)) ->
-  forall l iv jv k, (jv <= iv)%nat -> (iv < c_nvar cf)%nat -> (k < d_npas d)%nat ->
+  forall n l iv jv k, c_dateLoop cf = false -> Forall (same_dim n) l ->
+  (jv <= iv)%nat -> (iv < c_nvar cf)%nat -> (k < d_npas d)%nat ->
   let c := nth (dir_address false (d_npas d) iv jv k Ozero) (accumulate1 cf d l) cell0 in
   a_sw c == vg_sw cf d iv jv k l /\ a_glo c == vg_num cf d iv jv k l /\ a_ghi c == vg_num cf d iv jv k l.
 Proof. exact accumulate1_vg. Qed.
 Print Assumptions C12_estimators.
 
+(* variogram in date mode (with or without a date interval): sums over the ORDERED pairs (a, b), a <> b, of the data in their
+   original order, each passing the test date(b) - date(a) in [dmin, dmax) when an interval is in force *)
+Theorem C12_estimators_dates : forall cf d n l iv jv k,
+  c_calc cf = Vg -> c_dateLoop cf = true ->
+  0 < d_dpas d -> 0 <= d_tol d -> 0 <= d_psmin d -> 0 < Qred (dot (d_codir d) (d_codir d)) ->
+  Forall (same_dim n) l ->
+  (jv <= iv)%nat -> (iv < c_nvar cf)%nat -> (k < d_npas d)%nat ->
+  let c := nth (dir_address false (d_npas d) iv jv k Ozero) (accumulate1 cf d l) cell0 in
+  a_sw c == opair_sum (vg_pair_sw cf d iv jv k) (filter (usable cf) l) /\
+  a_glo c == opair_sum (vg_pair_num cf d iv jv k) (filter (usable cf) l) /\
+  a_ghi c == opair_sum (vg_pair_num cf d iv jv k) (filter (usable cf) l).
+Proof. exact accumulate1_vg_dates. Qed.
+Print Assumptions C12_estimators_dates.
+
+Definition dt_s (x z dt : Q) : sample := {| s_x := [x]; s_sel := true; s_w := None; s_date := Some dt; s_z := [Some z] |}.
+Example C12_estimators_dates_nonvacuous :
+  (* date interval [0, 2): of the ordered pairs at distance 1 only those going forward in time by less than 2 count *)
+  let cf := {| c_calc := Vg; c_hasSel := false; c_hasW := false; c_dateLoop := true; c_dateChk := true; c_nvar := 1 |} in
+  let d := {| d_npas := 3; d_dpas := 1; d_tol := 1 # 2; d_psmin := 0; d_codir := [1]; d_bench := None; d_cyl := None; d_dmin := 0; d_dmax := 2 |} in
+  let l := [dt_s 0 1 5; dt_s 1 3 6; dt_s 2 2 3; dt_s 3 5 3] in
+  opair_sum (vg_pair_sw cf d 0 0 1) l == 3 /\
+  a_sw (nth 1 (accumulate1 cf d l) cell0) == 3 /\ a_glo (nth 1 (accumulate1 cf d l) cell0) == 11.
+Proof. vm_compute. repeat split; reflexivity. Qed.
+
 (* ... and what is reported after Vario::_rescale: sw = total weight of the lag, gg = the defining average, TEST when empty *)
 Theorem C12_reports : forall cf d,
   c_calc cf = Vg -> c_dateLoop cf = false -> c_dateChk cf = false ->
   0 < d_dpas d -> 0 <= d_tol d -> 0 <= d_psmin d -> 0 < Qred (dot (d_codir d) (d_codir d)) ->
-  forall l iv jv k, (jv <= iv)%nat -> (iv < c_nvar cf)%nat -> (k < d_npas d)%nat ->
+  forall n l iv jv k, Forall (same_dim n) l -> (jv <= iv)%nat -> (iv < c_nvar cf)%nat -> (k < d_npas d)%nat ->
   exists oc,
     nth_error (block (d_npas d) (var_rank iv jv) (rescale cf (d_npas d) (accumulate1 cf d l))) k = Some oc /\
     o_sw oc == vg_sw cf d iv jv k l /\
@@ -144,12 +181,13 @@ Proof. exact solution1_sym_blocks. Qed.
 Print Assumptions C12_reports_layout.
 
 (* covariance (centred or not), raw accumulators of the side o = Oplus / Ominus of lag k: sums of the explicit pair terms
-   [cov_pair] (weight w_a w_b; z_i(a) z_j(b) on the side where b lies ahead of a, z_i(b) z_j(a) on the other side; the code's
-   convention that variable i must be known at both ends).  Pairs are taken in the order of the first coordinate: *)
+   [cov_pair] (weight w_a w_b; z_i(a) z_j(b) on the side where b lies ahead of a, z_i(b) z_j(a) on the other side; a product
+   needs only its own two values; coincident samples share both products between the two sides).
+   Pairs taken in the order of the first coordinate: *)
 Theorem C12_estimators_cov_partial : forall cf d,
   c_calc cf = Cov \/ c_calc cf = CovNC -> c_dateLoop cf = false -> c_dateChk cf = false ->
   0 < d_dpas d -> 0 <= d_tol d -> 0 <= d_psmin d -> 0 < Qred (dot (d_codir d) (d_codir d)) ->
-  forall l iv jv k o, (jv <= iv)%nat -> (iv < c_nvar cf)%nat -> (k < d_npas d)%nat -> o <> Ozero ->
+  forall n l iv jv k o, Forall (same_dim n) l -> (jv <= iv)%nat -> (iv < c_nvar cf)%nat -> (k < d_npas d)%nat -> o <> Ozero ->
   let c := nth (dir_address true (d_npas d) iv jv k o) (accumulate1 cf d l) cell0 in
   let L := filter (usable cf) (sort_x1 l) in
   a_sw c == pair_sum (fun a b => fst (cov_pair cf d iv jv k o a b)) L /\
@@ -158,13 +196,13 @@ Theorem C12_estimators_cov_partial : forall cf d,
 Proof. exact accumulate1_cov. Qed.
 Print Assumptions C12_estimators_cov_partial.
 
-(* ... and over the data in ANY order as soon as every pair that can fall in the lag has a non-zero projection on the direction
-   (no coincident samples, no pair orthogonal to the direction); without that hypothesis see C12_permutation_refuted *)
+(* ... and over the data in ANY order as soon as no pair that can fall in the lag is orthogonal to the direction without being
+   reduced to a point (coincident samples are fine); for the orthogonal case see C12_permutation_refuted *)
 Theorem C12_estimators_cov : forall cf d,
   c_calc cf = Cov \/ c_calc cf = CovNC -> c_dateLoop cf = false -> c_dateChk cf = false ->
   0 < d_dpas d -> 0 <= d_tol d -> 0 <= d_psmin d -> 0 < Qred (dot (d_codir d) (d_codir d)) ->
-  forall l iv jv k o, (jv <= iv)%nat -> (iv < c_nvar cf)%nat -> (k < d_npas d)%nat -> o <> Ozero ->
-  (forall a b, In a l -> In b l -> a = b \/ ~ g_dproj (geo_pair d a b) == 0 \/ pair_in d k a b = false) ->
+  forall n l iv jv k o, Forall (same_dim n) l -> (jv <= iv)%nat -> (iv < c_nvar cf)%nat -> (k < d_npas d)%nat -> o <> Ozero ->
+  (forall a b, In a l -> In b l -> coincident d a b = true \/ ~ g_dproj (geo_pair d a b) == 0 \/ pair_in d k a b = false) ->
   let c := nth (dir_address true (d_npas d) iv jv k o) (accumulate1 cf d l) cell0 in
   let L := filter (usable cf) l in
   a_sw c == pair_sum (fun a b => fst (cov_pair cf d iv jv k o a b)) L /\
@@ -172,6 +210,13 @@ Theorem C12_estimators_cov : forall cf d,
   a_ghi c == pair_sum (fun a b => snd (cov_pair cf d iv jv k o a b)) L.
 Proof. exact accumulate1_cov_unordered. Qed.
 Print Assumptions C12_estimators_cov.
+
+(* C_ij(h) is the mirror of C_ji(-h), whatever values are missing: pair term by pair term, hence for the sums *)
+Theorem C12_cov_mirror : forall cf d iv jv k o L, o <> Ozero ->
+  pair_sum (fun a b => fst (cov_pair cf d iv jv k o a b)) L == pair_sum (fun a b => fst (cov_pair cf d jv iv k (flip o) a b)) L /\
+  pair_sum (fun a b => snd (cov_pair cf d iv jv k o a b)) L == pair_sum (fun a b => snd (cov_pair cf d jv iv k (flip o) a b)) L.
+Proof. exact cov_sums_mirror. Qed.
+Print Assumptions C12_cov_mirror.
 
 (* hh is reported through enclosures of the square roots *)
 Theorem C12_sqrt_enclosure : forall x, 0 <= x ->
@@ -198,17 +243,18 @@ Example C12_estimators_nonvacuous :
 Proof. vm_compute. repeat split; reflexivity. Qed.
 
 Example C12_estimators_cov_nonvacuous :
-  (* cross covariance of the two variables at lag 2: the pairs (0,0)-(2,0) and (0,1)-(2,0), weight 2 each; side "+" holds
-     z_2(behind) z_1(ahead) = 1*1 + 2*1 (times 2), side "-" holds z_2(ahead) z_1(behind) = 4*3 + 4*7 (times 2);
-     every pair of ex_l that falls in lag 2 has a direction *)
+  (* cross covariance of the two variables: lag 2 holds the pairs (0,0)-(2,0) and (0,1)-(2,0), weight 2 each: side "+"
+     z_2(behind) z_1(ahead) = 1*1 + 2*1 (times 2), side "-" z_2(ahead) z_1(behind) = 4*3 + 4*7 (times 2).
+     Lag 1 is heterotopic (z_2 missing at (1,0)): side "+" only gets z_2(0,0) z_1(1,0), side "-" only z_2(2,0) z_1(1,0).
+     Every pair of ex_l that falls in lag 1 or 2 has a direction; the mirror law exchanges the two sides. *)
   let cf := ex_cf CovNC in
-  let cp := nth (dir_address true 3 1 0 2 Oplus) (accumulate1 cf ex_d ex_l) cell0 in
-  let cm := nth (dir_address true 3 1 0 2 Ominus) (accumulate1 cf ex_d ex_l) cell0 in
-  a_sw cp == 4 /\ a_glo cp == 6 /\ a_sw cm == 4 /\ a_glo cm == 80 /\
-  pair_sum (fun a b => fst (cov_pair cf ex_d 1 0 2 Oplus a b)) (filter (usable cf) ex_l) == 4 /\
+  let cell k o := nth (dir_address true 3 1 0 k o) (accumulate1 cf ex_d ex_l) cell0 in
+  a_sw (cell 2%nat Oplus) == 4 /\ a_glo (cell 2%nat Oplus) == 6 /\ a_sw (cell 2%nat Ominus) == 4 /\ a_glo (cell 2%nat Ominus) == 80 /\
+  a_sw (cell 1%nat Oplus) == 1 # 2 /\ a_glo (cell 1%nat Oplus) == 1 /\ a_sw (cell 1%nat Ominus) == 1 /\ a_glo (cell 1%nat Ominus) == 8 /\
   pair_sum (fun a b => snd (cov_pair cf ex_d 1 0 2 Oplus a b)) (filter (usable cf) ex_l) == 6 /\
-  pair_sum (fun a b => snd (cov_pair cf ex_d 1 0 2 Ominus a b)) (filter (usable cf) ex_l) == 80 /\
-  forallb (fun p => negb (qeqb (g_dproj (geo_pair ex_d (fst p) (snd p))) 0) || negb (pair_in ex_d 2 (fst p) (snd p)))
+  pair_sum (fun a b => snd (cov_pair cf ex_d 0 1 2 Ominus a b)) (filter (usable cf) ex_l) == 6 /\
+  pair_sum (fun a b => snd (cov_pair cf ex_d 1 0 1 Ominus a b)) (filter (usable cf) ex_l) == 8 /\
+  forallb (fun p => negb (qeqb (g_dproj (geo_pair ex_d (fst p) (snd p))) 0) || (negb (pair_in ex_d 2 (fst p) (snd p)) && negb (pair_in ex_d 1 (fst p) (snd p))))
           (all_pairs (filter (usable cf) ex_l)) = true.
 Proof. vm_compute. repeat split; reflexivity. Qed.
 
@@ -220,14 +266,15 @@ Proof. exact (fun asym npas iv jv k o cf d l => conj (dir_address_sym asym npas 
 Print Assumptions C12_symmetry.
 
 (* ------------------------------------------------------------------ permutation of the samples *)
-Theorem C12_permutation_spec : forall cf d iv jv k l l',
+Theorem C12_permutation_spec : forall cf d, c_dateChk cf = false -> forall iv jv k l l',
   Permutation l l' -> vg_sw cf d iv jv k l == vg_sw cf d iv jv k l' /\ vg_num cf d iv jv k l == vg_num cf d iv jv k l'.
 Proof. exact vg_sums_perm. Qed.
 Print Assumptions C12_permutation_spec.
 
-Theorem C12_permutation : forall cf d l l' iv jv k,
+Theorem C12_permutation : forall cf d n l l' iv jv k,
   c_calc cf = Vg -> c_dateLoop cf = false -> c_dateChk cf = false ->
   0 < d_dpas d -> 0 <= d_tol d -> 0 <= d_psmin d -> 0 < Qred (dot (d_codir d) (d_codir d)) ->
+  Forall (same_dim n) l ->
   (jv <= iv)%nat -> (iv < c_nvar cf)%nat -> (k < d_npas d)%nat ->
   Permutation l l' ->
   let adr := dir_address false (d_npas d) iv jv k Ozero in
@@ -237,19 +284,37 @@ Theorem C12_permutation : forall cf d l l' iv jv k,
 Proof. exact accumulate1_vg_perm. Qed.
 Print Assumptions C12_permutation.
 
-(* For the asymmetric estimators invariance fails: two samples at the same place (or any pair orthogonal to the direction)
-   have no orientation, _evaluateCovariance then puts z_i(first) z_j(second) on the "-" side and z_i(second) z_j(first) on the
-   "+" side, "first" being decided by the order of the samples. *)
+(* in date mode: sums over ordered pairs do not depend on the order of the samples either *)
+Theorem C12_permutation_dates : forall (f : sample -> sample -> Q) l l', Permutation l l' -> opair_sum f l == opair_sum f l'.
+Proof. exact (@opair_sum_perm sample). Qed.
+Print Assumptions C12_permutation_dates.
+
+(* covariance: C12_estimators_cov expresses the accumulators by sums over the data in any order (the right-hand side does not
+   mention the sort), under the hypothesis that no contributing pair is orthogonal to the direction.  Coincident samples are
+   now handled symmetrically: *)
 Definition dup_s (x z1 z2 : Q) : sample := {| s_x := [x]; s_sel := true; s_w := None; s_date := None; s_z := [Some z1; Some z2] |}.
 Definition dup_cf : cfg := {| c_calc := CovNC; c_hasSel := false; c_hasW := false; c_dateLoop := false; c_dateChk := false; c_nvar := 2 |}.
 Definition dup_d : dirp := {| d_npas := 2; d_dpas := 1; d_tol := 1 # 2; d_psmin := 0; d_codir := [1]; d_bench := None; d_cyl := None; d_dmin := 0; d_dmax := 0 |}.
-Example C12_permutation_refuted :
+Example C12_permutation_coincident :
   let l := [dup_s 0 1 10; dup_s 0 3 20; dup_s 1 2 50] in
   let l' := [dup_s 0 3 20; dup_s 0 1 10; dup_s 1 2 50] in
+  map o_gg (nth 1 (solution1 dup_cf dup_d l) []) = [Some (100, 100); Some (25, 25); Some (170 # 3, 170 # 3); Some (25, 25); Some (30, 30)] /\
+  solution1 dup_cf dup_d l' = solution1 dup_cf dup_d l.
+Proof. cbv zeta. split; vm_compute; reflexivity. Qed.
+
+(* The hypothesis cannot be dropped: a pair orthogonal to the direction (angular tolerance 90 degrees) has no orientation;
+   _evaluateCovariance puts z_i(first) z_j(second) on the "+" side and z_i(second) z_j(first) on the "-" side, "first" being
+   decided by the order of the samples (known finding evaluateCovariance:undirected-pair-orientation). *)
+Definition or_s (x y z1 z2 : Q) : sample := {| s_x := [x; y]; s_sel := true; s_w := None; s_date := None; s_z := [Some z1; Some z2] |}.
+Definition or_d : dirp := {| d_npas := 2; d_dpas := 1; d_tol := 1 # 2; d_psmin := 0; d_codir := [1; 0]; d_bench := None; d_cyl := None; d_dmin := 0; d_dmax := 0 |}.
+Example C12_permutation_refuted :
+  let l := [or_s 0 0 1 10; or_s 0 1 3 20] in
+  let l' := [or_s 0 1 3 20; or_s 0 0 1 10] in
   Permutation l l' /\
-  map o_gg (nth 1 (solution1 dup_cf dup_d l) []) = [Some (100, 100); Some (30, 30); Some (170 # 3, 170 # 3); Some (20, 20); Some (30, 30)] /\
-  map o_gg (nth 1 (solution1 dup_cf dup_d l') []) = [Some (100, 100); Some (20, 20); Some (170 # 3, 170 # 3); Some (30, 30); Some (30, 30)].
-Proof. cbv zeta. split; [apply perm_swap|]. split; vm_compute; reflexivity. Qed.
+  g_dproj (geo_pair or_d (or_s 0 0 1 10) (or_s 0 1 3 20)) == 0 /\ coincident or_d (or_s 0 0 1 10) (or_s 0 1 3 20) = false /\
+  map o_gg (nth 1 (solution1 dup_cf or_d l) []) = [Some (20, 20); None; Some (35, 35); None; Some (30, 30)] /\
+  map o_gg (nth 1 (solution1 dup_cf or_d l') []) = [Some (30, 30); None; Some (35, 35); None; Some (20, 20)].
+Proof. cbv zeta. split; [apply perm_swap|]. repeat split; vm_compute; reflexivity. Qed.
 
 (* ------------------------------------------------------------------ translation of the coordinates *)
 Theorem C12_translation : forall t cf d l,
@@ -264,15 +329,41 @@ Example C12_translation_nonvacuous :
   existsb (fun c => qltb 0 (o_sw c)) (nth 0 (solution1 (ex_cf Cov) ex_d ex_l) []) = true.
 Proof. cbv zeta. split; [repeat constructor|]. split; vm_compute; reflexivity. Qed.
 
-(* ------------------------------------------------------------------ by-sample algorithm (flag_sample, covariogram) *)
-(* the accumulators are not reset between two first samples: the result is not the by-sample average *)
-Example C12_bysample_refuted :
+(* ------------------------------------------------------------------ by-sample algorithm (flag_sample) *)
+(* variogram, madogram, order-4: _calculateGeneralSolution2 returns exactly the by-sample estimator of the spec: for every first
+   sample a (order of the first coordinate) the ratios G_a(k)/S_a(k) of its OWN pairs (a, b), b after a, averaged with weight w_a;
+   pairs, lags and acceptance by their closed forms *)
+Theorem C12_bysample : forall cf d,
+  plain_sym (c_calc cf) -> c_dateLoop cf = false -> c_dateChk cf = false ->
+  0 < d_dpas d -> 0 <= d_tol d -> 0 <= d_psmin d -> 0 < Qred (dot (d_codir d) (d_codir d)) ->
+  forall n l, Forall (same_dim n) l -> solution2 cf d l = spec_solution2 cf d l.
+Proof. exact solution2_spec. Qed.
+Print Assumptions C12_bysample.
+
+(* one pair: isOK + getLagRank + _evaluate = acceptance and lag class by their closed forms *)
+Theorem C12_pair_closed_form : forall cf d,
+  plain_sym (c_calc cf) -> c_dateChk cf = false ->
+  0 < d_dpas d -> 0 <= d_psmin d -> 0 < Qred (dot (d_codir d) (d_codir d)) ->
+  forall means means' a b, pair_updates cf d means a b = spec_pair_updates cf d means' a b.
+Proof. exact pair_updates_spec. Qed.
+Print Assumptions C12_pair_closed_form.
+
+Example C12_bysample_nonvacuous :
   let cf := {| c_calc := Vg; c_hasSel := false; c_hasW := false; c_dateLoop := false; c_dateChk := false; c_nvar := 1 |} in
   let l := [wit_s 0 1; wit_s 1 3; wit_s 2 2; wit_s 3 5; wit_s 4 7] in
-  map o_gg (nth 0 (solution2 cf wit_dir l) []) = [None; Some (121 # 60, 121 # 60); Some (67 # 20, 67 # 20)] /\
-  map o_gg (nth 0 (spec_solution2 cf wit_dir l) []) = [None; Some (9 # 4, 9 # 4); Some (5, 5)] /\
-  (* mirrored data: the by-sample average is unchanged, the implemented quantity is not *)
-  let l' := [wit_s 4 1; wit_s 3 3; wit_s 2 2; wit_s 1 5; wit_s 0 7] in
-  map o_gg (nth 0 (solution2 cf wit_dir l') []) = [None; Some (29 # 12, 29 # 12); Some (139 # 20, 139 # 20)] /\
-  map o_gg (nth 0 (spec_solution2 cf wit_dir l') []) = [None; Some (9 # 4, 9 # 4); Some (5, 5)].
+  map o_gg (nth 0 (solution2 cf wit_dir l) []) = [None; Some (9 # 4, 9 # 4); Some (5, 5)] /\
+  map o_sw (nth 0 (solution2 cf wit_dir l) []) = [0; 4; 3] /\
+  solution2 cf wit_dir l = spec_solution2 cf wit_dir l.
+Proof. cbv zeta. repeat split; vm_compute; reflexivity. Qed.
+
+(* The by-sample estimator itself is NOT invariant under a mirror image of the data (a pair belongs to its first sample in the
+   order of the first coordinate): samples at 0, 1, 5/4, 2 and their mirror image give 19/2 and 6 at lag 1, while the ordinary
+   variogram gives 31/4 for both.  This is a property of the definition, not of the code; no mirror theorem is claimed. *)
+Example C12_bysample_mirror_refuted :
+  let cf := {| c_calc := Vg; c_hasSel := false; c_hasW := false; c_dateLoop := false; c_dateChk := false; c_nvar := 1 |} in
+  let l := [wit_s 0 1; wit_s 1 4; wit_s (5 # 4) 2; wit_s 2 8] in
+  let l' := [wit_s 2 1; wit_s 1 4; wit_s (3 # 4) 2; wit_s 0 8] in
+  map o_gg (nth 0 (spec_solution2 cf wit_dir l) []) = [Some (2, 2); Some (19 # 2, 19 # 2); Some (49 # 2, 49 # 2)] /\
+  map o_gg (nth 0 (spec_solution2 cf wit_dir l') []) = [Some (2, 2); Some (6, 6); Some (49 # 2, 49 # 2)] /\
+  map o_gg (nth 0 (solution1 cf wit_dir l) []) = map o_gg (nth 0 (solution1 cf wit_dir l') []).
 Proof. cbv zeta. repeat split; vm_compute; reflexivity. Qed.
